@@ -25,12 +25,15 @@ def write_side(ctx, rng, k):
     plan = mksegy.header_plan(rng, n_fields=int(rng.integers(0, 6)))
     plan.set_final(n[1] - 1)
     if style == 'plain':
-        mksegy.make_segy(sgy, arr, two_d=True, headers=plan, fmt=[5, 1][k % 2], dt_us=int(rng.choice([4000, 1000, 500])))
+        mksegy.make_segy(sgy, arr, two_d=True, headers=plan, fmt=[5, 1][k % 2], dt_us=int(rng.choice([4000, 1000, 500])),
+                         t0=int(rng.choice([0, 600, -100, 32000])))
     elif style == 'single-il':
-        mksegy.make_segy(sgy, arr, ilines=[7], xlines=list(range(10, 10 + n[1])), headers=plan, fmt=5, dt_us=2000)
+        mksegy.make_segy(sgy, arr, ilines=[7], xlines=list(range(10, 10 + n[1])), headers=plan, fmt=5, dt_us=2000,
+                         t0=int(rng.choice([0, 600, -100])))
     else:
         a2 = arr.transpose(1, 0, 2)
-        mksegy.make_segy(sgy, a2, ilines=list(range(3, 3 + n[1])), xlines=[55], headers=plan, fmt=5, dt_us=2000)
+        mksegy.make_segy(sgy, a2, ilines=list(range(3, 3 + n[1])), xlines=[55], headers=plan, fmt=5, dt_us=2000,
+                         t0=int(rng.choice([0, 1500, -200])))
     src = view.segy_view(sgy)
     out = ctx.path('l.sgz')
     desc = {'n_traces': n[1], 'n_samples': n[2], 'bs': bs, 'q': q, 'style': style}
